@@ -53,6 +53,8 @@ type exch struct {
 	H2     *h2opts  `json:"h2,omitempty"`
 	H3     *h3opts  `json:"h3,omitempty"`
 	Group  int      `json:"group,omitempty"` // >0: the same abstract response is fetched over all three protocols
+	API    *apiCfg  `json:"api,omitempty"`   // round 2: Response API cell
+	as     apiSeen
 	Method string   `json:"method"`
 	Mode   string   `json:"mode"` // auto | stream | tobytes | output | outfile
 	Pat    []int    `json:"read_sizes"`
@@ -141,6 +143,10 @@ func copyHeader(h http.Header) map[string][]string {
 
 // perform runs one request in the given read mode and records what the caller sees.
 func perform(c *req.Client, x *exch, url string, outDir string) (s seen) {
+	if x.API != nil {
+		x.performAPI(c, url)
+		return x.s
+	}
 	done := make(chan struct{})
 	go func() {
 		defer close(done)
